@@ -309,7 +309,7 @@ func gen(kind string, rng *hx.Rng, n int) []string {
 func main() {
 	r := hx.Start()
 	r.MaxSamples = 8
-	r.Rule = "per container random histories of 40 requests (keys 0..5; capacities 1..9, 0, 2^16; shrink ratio in {0,1/2,1,3/2,2,3, odd, non-dyadic, NaN, +-Inf} x count 0..3 and extreme; " +
+	r.Rule = "per container random histories of 40 requests (keys 0..5, one map history in eight 10..30 keys; capacities 1..9, 0, 2^16; shrink ratio in {0,1/2,1,3/2,2,3, odd, non-dyadic, NaN, +-Inf} x count 0..3 and extreme; " +
 		"asc/desc x six comparator kinds of the Priority/Key type parameter; instants near, far and 1 ns apart in mixed time.Time representations); " +
 		"non-trivial = shrink: the map was rebuilt by a threshold at least once and then read; rmap: a non-last key was deleted and a random pick answered; " +
 		"own: a caller wrote into a slice returned by Keys() and the map was changed afterwards; gh/pq: a live handle removed an element (gh: not the root, not the last) and 3 pops followed; tpq: 3 pushes then 3 elements popped; queue: more accepted offers than the capacity; ring: ToSlice read after wrapping; stack: pop after push after pop; distinct by sha256 of the request lines"
